@@ -297,10 +297,10 @@ pub fn process(
         Operation::Rjmp | Operation::Rcall => {
             let k = op_args[0].get_expr()?;
             let k = k.run(constants)?;
-            let rel = k - (current_address as i64 + 1);
-            if rel < -2048 || rel > 2047 {
-                bail!("Relative address out of range (-2048 <= k <= 2047)");
-            }
+            let rel = match k.checked_sub(current_address as i64 + 1) {
+                Some(rel) if rel >= -2048 && rel <= 2047 => rel,
+                _ => bail!("Relative address out of range (-2048 <= k <= 2047)"),
+            };
             opcode |= (rel as u16) & 0x0fff;
         }
         Operation::Jmp | Operation::Call => {
@@ -331,10 +331,10 @@ pub fn process(
 
             let k = op_args[index].get_expr()?;
             let k = k.run(constants)?;
-            let rel = k - (current_address as i64 + 1);
-            if rel < -64 || rel > 63 {
-                bail!("Relative address out of range (-64 <= k <= 63)");
-            }
+            let rel = match k.checked_sub(current_address as i64 + 1) {
+                Some(rel) if rel >= -64 && rel <= 63 => rel,
+                _ => bail!("Relative address out of range (-64 <= k <= 63)"),
+            };
             opcode |= ((rel as u16) & 0x7f) << 3;
         }
         Operation::Movw => {
